@@ -3,6 +3,7 @@
 package c18ctl
 
 import (
+	"bytes"
 	"fmt"
 	"sort"
 	"sync"
@@ -46,9 +47,11 @@ func (p *params) Validate() {
 	p.Level = p.Level &^ 1
 }
 
-func (c *BadCodec) Name() string                            { return "bad" }
-func (c *BadCodec) TransferSyntax() *transfer.Syntax        { return nil }
-func (c *BadCodec) GetDefaultParameters() codec.Parameters { return &params{m: map[string]interface{}{}} }
+func (c *BadCodec) Name() string                     { return "bad" }
+func (c *BadCodec) TransferSyntax() *transfer.Syntax { return nil }
+func (c *BadCodec) GetDefaultParameters() codec.Parameters {
+	return &params{m: map[string]interface{}{}}
+}
 
 func (c *BadCodec) Encode(oldPixelData, newPixelData imagetypes.PixelData, parameters codec.Parameters) error {
 	if p, ok := parameters.(*params); ok {
@@ -100,8 +103,8 @@ var _ codec.Codec = (*BadCodec)(nil)
 // SkipCodec drops frames silently: ORDER-FRAMES control.
 type SkipCodec struct{}
 
-func (c *SkipCodec) Name() string                            { return "skip" }
-func (c *SkipCodec) TransferSyntax() *transfer.Syntax        { return nil }
+func (c *SkipCodec) Name() string                           { return "skip" }
+func (c *SkipCodec) TransferSyntax() *transfer.Syntax       { return nil }
 func (c *SkipCodec) GetDefaultParameters() codec.Parameters { return nil }
 
 func (c *SkipCodec) Encode(oldPixelData, newPixelData imagetypes.PixelData, parameters codec.Parameters) error {
@@ -176,8 +179,8 @@ func (d *StickyDecoder) Decode(data []byte) []byte {
 // ReuseCodec allocates a StickyDecoder outside its frame loop (discovered CARRY target).
 type ReuseCodec struct{}
 
-func (c *ReuseCodec) Name() string                            { return "reuse" }
-func (c *ReuseCodec) TransferSyntax() *transfer.Syntax        { return nil }
+func (c *ReuseCodec) Name() string                           { return "reuse" }
+func (c *ReuseCodec) TransferSyntax() *transfer.Syntax       { return nil }
 func (c *ReuseCodec) GetDefaultParameters() codec.Parameters { return nil }
 func (c *ReuseCodec) Encode(oldPixelData, newPixelData imagetypes.PixelData, parameters codec.Parameters) error {
 	return nil
@@ -222,3 +225,60 @@ func (c *SharedDefaultsCodec) Decode(oldPixelData, newPixelData imagetypes.Pixel
 }
 
 var _ codec.Codec = (*SharedDefaultsCodec)(nil)
+
+// frameWriter owns a staging buffer; Bytes hands out a view of it: OUTPUT-VIEW controls.
+type frameWriter struct {
+	buf bytes.Buffer
+}
+
+func (w *frameWriter) reset()        { w.buf.Reset() }
+func (w *frameWriter) put(p []byte)  { w.buf.Write(p) }
+func (w *frameWriter) view() []byte  { return w.buf.Bytes() }
+func (w *frameWriter) owned() []byte { return append([]byte(nil), w.buf.Bytes()...) }
+
+// ViewCodec hands a view of a writer that outlives the iteration to AddFrame (Encode: OUTPUT-VIEW
+// control) and a copy of it (Decode: guarded twin, must be discharged).
+type ViewCodec struct{}
+
+func (c *ViewCodec) Name() string                           { return "view" }
+func (c *ViewCodec) TransferSyntax() *transfer.Syntax       { return nil }
+func (c *ViewCodec) GetDefaultParameters() codec.Parameters { return nil }
+func (c *ViewCodec) Encode(oldPixelData, newPixelData imagetypes.PixelData, parameters codec.Parameters) error {
+	w := &frameWriter{}
+	n := oldPixelData.FrameCount()
+	for i := 0; i < n; i++ {
+		f, err := oldPixelData.GetFrame(i)
+		if err != nil {
+			return err
+		}
+		w.reset()
+		w.put(f)
+		var out []byte
+		fillView(w, &out)
+		if err := newPixelData.AddFrame(out); err != nil {
+			return err
+		}
+	}
+	return nil
+}
+
+func fillView(w *frameWriter, dst *[]byte) { *dst = w.view() }
+
+func (c *ViewCodec) Decode(oldPixelData, newPixelData imagetypes.PixelData, parameters codec.Parameters) error {
+	w := &frameWriter{}
+	n := oldPixelData.FrameCount()
+	for i := 0; i < n; i++ {
+		f, err := oldPixelData.GetFrame(i)
+		if err != nil {
+			return err
+		}
+		w.reset()
+		w.put(f)
+		if err := newPixelData.AddFrame(w.owned()); err != nil {
+			return err
+		}
+	}
+	return nil
+}
+
+var _ codec.Codec = (*ViewCodec)(nil)
